@@ -116,6 +116,31 @@ pub fn flags_restored<S: Source>(s: &mut S) {
     forget((a, b, c, p, q, r));
 }
 
+/// an untracked operand *before* a tracked one: the pass must restore the tracked one's flag
+/// (a second pass over the same graph, also from a clone of the root, still reaches it)
+pub fn flags_restored_untracked_first<S: Source>(s: &mut S) {
+    let u = mk(s, &[2], Dom::D4);
+    let a = mk(s, &[2], Dom::D4).tracked();
+    let r = &u * &a;
+    r.backward(None);
+    let g1: Vec<Float> = a.gradient().as_ref().unwrap().values().to_vec();
+    #[cfg(any(kani, corgi_verif))]
+    {
+        let rc = r.verif_children();
+        chk!(rc.len() == 2 && !rc[0].verif_flags().0 && rc[1].verif_flags().0, "[c09:child-flags] the pass left a recorded operand's flag changed");
+    }
+    chk!(is_tracked(&a) && !is_tracked(&u) && is_tracked(&r), "[c09:leaf-flags] the pass changed a tracking flag");
+    r.clone().backward(None);
+    let g2: Vec<Float> = a.gradient().as_ref().unwrap().values().to_vec();
+    for i in 0..2 {
+        chk!(g1[i] == u.values()[i], "[grad:value] gradient element differs from the seed-weighted sum of partial derivatives");
+        chk!(g2[i] == 2.0 * g1[i], "[c09:second-pass] a second identical pass did not double the gradient");
+    }
+    chk!(u.gradient().is_none(), "[c09:untracked-operand-gradient] an untracked operand received a gradient");
+    witness();
+    forget((u, a, r));
+}
+
 /// setting the flag on a clone never changes the original (and vice versa)
 pub fn clone_flags<S: Source>(s: &mut S) {
     let a = mk(s, &[2], Dom::D4).tracked();
